@@ -1,3 +1,41 @@
-From Ebml Require Import Base Tools Spec Reader.
-Example C03_ex : ebml_size 127 1 = SUnknown /\ ebml_size 127 2 = SKnown 127.
-Proof. vm_compute. split; reflexivity. Qed.
+(* C03 — every emitted tag mirrors the bytes at its reported offset; tags tile the stream.  Statements only. *)
+From Ebml Require Import Base Tools Spec Reader Pure Proofs.Tactics Proofs.ReaderIO Proofs.Refine Proofs.PureProofs.
+
+(* One tag (every configuration, every parser state, every remaining input): if reading a tag succeeds then
+   - the offset recorded for the item is the cursor position before the tag,
+   - the id decoded at that position is the item's id,
+   - the input splits as header ++ payload ++ rest, the cursor advances exactly over header (masters) or header ++ payload
+     (other elements): no byte is skipped or read twice,
+   - a master's payload part is empty (its children follow), and an element's value is the documented decoding of the
+     payload for the declared type (big-endian unsigned, two's-complement signed, IEEE 4/8-byte float, UTF-8, raw). *)
+Theorem C03_tag_mirrors_bytes : forall c st st' p, p_read_tag c st = (st', Ok p) ->
+  p_start p = b_off st /\
+  exists idl hl payload,
+    p_tag_id st = Ok (tag_id (p_tag p), idl) /\ (idl <= hl)%nat /\
+    b_bytes st = firstn hl (b_bytes st) ++ payload ++ b_bytes st' /\ length (firstn hl (b_bytes st)) = hl /\
+    p_data p = b_off st + N.of_nat hl /\
+    b_off st' = b_off st + N.of_nat hl + N.of_nat (length payload) /\
+    match p_tag p with
+    | TStart id => get_type (c_sp c) id = Some DMaster /\ payload = []
+    | TElem id v => get_type (c_sp c) id <> Some DMaster /\ decodes (get_type (c_sp c) id) payload v /\ p_size p = SKnown (N.of_nat (length payload))
+    | _ => False
+    end.
+Proof. exact p_read_tag_mirrors. Qed.
+
+(* the buffered machine reads the same tags at the same offsets for every chunking and capacity (C04) *)
+Theorem C03_buffered_same : forall c cap0 script input ops, calm script ->
+  run_reader c cap0 script input ops = p_run c input ops.
+Proof. exact buffered_refines_pure. Qed.
+
+(* PARTIAL: the run-level statements (End and Full items report the offset of their Start; consecutive non-End items of a
+   whole run tile the input) follow the frames' f_start bookkeeping and are covered by the correspondence check with the
+   independent re-decoder (props/readcheck.py check_tiling); they are not yet proved as theorems. *)
+
+Example C03_ex :
+  let sp := [ {| e_id := 129; e_ty := DMaster; e_path := [] |}; {| e_id := 16643; e_ty := DMaster; e_path := [PId 129] |};
+              {| e_id := 16641; e_ty := DSInt; e_path := [PId 129; PId 16643] |} ] in
+  let c := {| c_sp := sp; c_allow_id := false; c_allow_hier := false; c_allow_over := false; c_max := Some 4000000000;
+              c_buffered := [16643]; c_emit_eof := true |} in
+  p_run c [129; 136; 65; 3; 133; 65; 1; 130; 255; 56] [RAll] =
+    [OItem (TStart 129) 0; OItem (TFull 16643 [TElem 16641 (VI (-200))]) 2; OItem (TEnd 129) 0; ONone].
+Proof. vm_compute. reflexivity. Qed.
